@@ -26,6 +26,18 @@ ARG_TOL = 2e-5       # approximate arguments (model outputs, data functions), re
 # trace + probes
 # ---------------------------------------------------------------------------------------------
 
+class TraceRouter:
+    """stands in for a Trace inside a user function object that several conditions share: events go to the trace of
+    the condition that is being evaluated"""
+
+    def __init__(self):
+        self.target = None
+
+    def add(self, kind, **kw):
+        if self.target is not None:
+            self.target.add(kind, **kw)
+
+
 class Trace:
     def __init__(self):
         self.events = []
@@ -120,6 +132,8 @@ class World:
         self.share_domains = share_domains
         self.samplers = {}          # share id -> sampler object
         self.models = {}
+        self.filters = {}           # share id -> filter function object
+        self.user_functions = []    # (label, UserFunction object handed to the library)
 
     def domain(self, v, dep=None):
         if dep is not None or not self.share_domains:
@@ -128,6 +142,28 @@ class World:
         if key not in self.domains:
             self.domains[key] = D.build_domain(v)
         return self.domains[key]
+
+
+def build_filter(f, world):
+    """filter function x[:, comp] > thr (+ c * t[:, 0] with a declared default for t); optionally handed over as a
+    UserFunction object that several samplers of a world share"""
+    share = f.get("share")
+    if share is not None and share in world.filters:
+        return world.filters[share]
+    if f.get("dep"):
+        dp = f["dep"]
+        dflt = {dp["var"]: torch.tensor(np.asarray(dp["default"], dtype=np.float32)).reshape(1, -1)}
+        fn = D.make_fn("flt", [f["var"], dp["var"]],
+                       lambda kw, f=f, dp=dp: kw[f["var"]][:, f["comp"]] > f["thr"] + dp["c"] * kw[dp["var"]][:, 0], dflt)
+    else:
+        fn = D.make_fn("flt", [f["var"]], lambda kw, f=f: kw[f["var"]][:, f["comp"]] > f["thr"])
+    if f.get("wrapped"):
+        from torchphysics.utils import UserFunction
+        fn = UserFunction(fn)
+        world.user_functions.append(("filter_function", fn))
+    if share is not None:
+        world.filters[share] = fn
+    return fn
 
 
 def build_sampler(spec, vars_, world, seed=None):
@@ -146,8 +182,7 @@ def build_sampler(spec, vars_, world, seed=None):
             dom = d if dom is None else dom * d
         flt = None
         if spec.get("filter"):
-            f = spec["filter"]
-            flt = D.make_fn("flt", [f["var"]], lambda kw, f=f: kw[f["var"]][:, f["comp"]] > f["thr"])
+            flt = build_filter(spec["filter"], world)
         kind = spec["kind"]
         if kind == "random":
             s = tp.samplers.RandomUniformSampler(dom, n_points=spec["n"], filter_fn=flt)
@@ -252,8 +287,10 @@ def make_residual(case, trace, tag=None, defaults=None):
     return fn, defaults
 
 
-def make_data_functions(case, trace, tag=None, shared=None):
-    """-> dict name -> user function.  `shared` (C14): an existing dict to take the functions from / put them into."""
+def make_data_functions(case, trace, tag=None, shared=None, registry=None):
+    """-> dict name -> user function.  `shared` (C14): an existing dict to take the functions from / put them into.
+    `registry` (C14): spec -> function object, so that the SAME user object can be put into several dicts."""
+    import json
     out = {} if shared is None else shared
     for d in case.get("data", []):
         if d["name"] in out:
@@ -261,7 +298,13 @@ def make_data_functions(case, trace, tag=None, shared=None):
 
         def on_call(name, kw, tag=tag):
             trace.add("data_call", tag=tag, name=name, kw=_clone_kw(kw))
-        out[d["name"]] = D.data_fn_torch(d, on_call)
+        if registry is not None:
+            key = json.dumps(d, sort_keys=True)
+            if key not in registry:
+                registry[key] = D.data_fn_torch(d, on_call)
+            out[d["name"]] = registry[key]
+        else:
+            out[d["name"]] = D.data_fn_torch(d, on_call)
     return out
 
 
@@ -281,7 +324,7 @@ def make_parameter(case):
 
 
 def build_condition(case, world=None, trace=None, tag=None, shared_data=None, model=None, fset=None, defaults=None,
-                    param=None):
+                    param=None, residual=None):
     """Constructs the condition of `case` with all probes in place.  Raises whatever the library raises."""
     import torchphysics as tp
     world = world or World()
@@ -294,7 +337,10 @@ def build_condition(case, world=None, trace=None, tag=None, shared_data=None, mo
         b.model, b.twin = model
     else:
         b.model, b.twin = D.build_model(case["model"], vars_)
-    b.residual, b.defaults = make_residual(case, trace, tag, defaults)
+    if residual is not None:
+        b.residual, b.defaults = residual
+    else:
+        b.residual, b.defaults = make_residual(case, trace, tag, defaults)
     b.data_dict = make_data_functions(case, trace, tag, shared_data)
     # the dict handed to the constructor: the shared one (C14) or a private one holding exactly this case's functions
     names = [d["name"] for d in case.get("data", [])]
